@@ -17,7 +17,7 @@ from copsim.seams import Poison, SimFS, sterile
 PROPERTY = 'C14'
 LEVEL = 'exploration'
 TIERS = {
-    'quick': {'runs': 2400, 'wall': 75, 'batch': 12},
+    'quick': {'runs': 2400, 'wall': 150, 'batch': 12},
     'thorough': {'runs': 40000, 'wall': 840, 'batch': 6},
 }
 RULE = ('Each run = 1-3 models (every public model class with constructor options: KDE '
